@@ -54,6 +54,13 @@ CHECKS = {
             'Tied to /repo per run: ~1400 rename/inline/extract requests on corpus and generated sources (LF/CRLF/CR/mixed, with/without final newline, unicode, form feeds, multi-file projects), 45% applied in scratch dirs: every real diff is parsed and run through the verified applier in Coq, '
             'the real parso tree + captured node map are serialised into the model and compared with get_new_code(), directory snapshots before/after construction and after apply(), exception contract (RefactoringError / ValueError only).',
             'Coq kernel + vm_compute; difflib is not trusted (diffs are re-applied by the verified applier); parso\'s RefactoringNormalizer is modelled; under load only the first wave of Coq file cases is evaluated within the time box.'),
+    'C15': ('Coq proof of the four give-up guards as state machines (bounds for traces of any length) + vm_compute correspondence with the real guard objects and traced queries on cyclic programs',
+            'Theorems (14, closed): transcriptions of ExecutionRecursionDetector.push/pop (order of checks, builtins/typing exemptions, refused pushes occupying the stack), execution_allowed, _memoize_default, the generator cache and _limit_value_infers; '
+            'for any well-bracketed event trace: accepted non-builtin executions <= 200 total, <= 6 per definition, nesting <= 15, <= 2 per definition on the stack; statement stack duplicate-free; a memoised body is entered at most once per key and re-entry returns the default; '
+            'accepted node inferences <= 300*S + 30000*S_b, hence total work <= 1 + b*(300*S + 30000*S_b) for fan-out b (linear in program size); refutations for builtins (no depth bound) and for memoisation without default. '
+            'The limits are read from /repo with ast on every run and must equal the constants the theorems are instantiated with. Tied to /repo per run: the real guard objects driven with exhaustive-small and random op sequences vs the model in Coq; '
+            'queries on generated cyclic definition graphs (22 edge kinds, import cycles) under a watchdog with the guards wrapped to record the event trace, which the model must accept; scaling families n<=64 checked against the linear bound.',
+            'Coq kernel + vm_compute; recursion outside the four guards (deep definition chains, the get_filters cycle) is invisible to the model and is found only by the query stream (two listed known findings).'),
 }
 
 NOT_YET = {
